@@ -445,7 +445,7 @@ class Gen:
             return ("pipe", sub(), (rng.choice(["length", "keys", "to_entries", "reverse", "any", "all", "not", "recurse", "unique", "sort"]),)
                     if True else None)
         if r < 0.74:
-            return ("pipe", sub(), (rng.choice(["has"]), lit(rng.choice(KEYS + [0, 1, 5]))))
+            return ("pipe", sub(), (rng.choice(["has"]), lit(rng.choice(KEYS + [0, 1, 5, 2, -1, True, None, "1", "0", "true"]))))
         if r < 0.78:
             return ("pipe", sub(), (rng.choice(["group_by", "unique_by", "sort_by"]), self.path(1)))
         if r < 0.81:
